@@ -3,6 +3,7 @@ package hx
 import (
 	"encoding/json"
 	"os"
+	"strings"
 )
 
 // Known findings: genuine defects that are recorded rather than repaired. Each is a decidable
@@ -80,6 +81,21 @@ func init() {
 		for _, m := range c.Messages {
 			if !(len(m) > 0 && (m == "nodes that differ in an attribute compare equal" || m == "edges that differ compare equal" ||
 				m == "node lists that differ compare equal" || m == "(not minimised)")) {
+				return false
+			}
+		}
+		return true
+	}
+}
+
+func init() {
+	// C05: a component whose explicit bom-ref has the shape of a generated identifier
+	KnownPredicates["cdx_reserved_ref"] = func(c *Case) bool {
+		if c.Kind != "oracle" || asStr(c.Op["op"]) != "cdxUnser" {
+			return false
+		}
+		for _, m := range c.Messages {
+			if m != "(not minimised)" && !strings.HasPrefix(m, "a component whose explicit reference equals a generated identifier") {
 				return false
 			}
 		}
